@@ -1,6 +1,7 @@
 import Tftp.Model.Client
 import Tftp.Props.C04
 import Tftp.Lemmas.Net
+import Tftp.Lemmas.NetTotal
 /-!
 # C14 — Bundled client and server interoperate byte-exactly for every option choice
 
@@ -94,5 +95,90 @@ theorem c14_fault_free_transfer (f : Bytes) (b w timeout : Nat) (clean : Bool) (
 
 /-! non-vacuity -/
 example : fileName [115, 117, 98, 47, 102, 46, 98] = some [102, 46, 98] := by decide   -- "sub/f.b" -> "f.b"
+
+end Tftp
+
+namespace Tftp
+
+/-- the four options of the client's request, as `clientRequest` builds them -/
+def clientOptions (c : ClientCfg) (ts : Nat) : List TransferOption :=
+  [{ option := .blksize, value := c.blocksize }, { option := .windowsize, value := c.windowsize },
+   { option := .timeout, value := c.timeoutS }, { option := .tsize, value := ts }]
+
+/-- **negotiation**: for every option choice inside the documented ranges the server's `parse_options` accepts
+the client's request options, runs the worker with exactly the client's block size, window size and time-out,
+and the OACK it builds makes the client (`verify_oack`) keep exactly these values - both ends of the data phase
+use the same parameters -/
+theorem c14_negotiation (c : ClientCfg) (rt : ReqType) (ts : Nat)
+    (hb : Gen.blksizeMin ≤ c.blocksize ∧ c.blocksize ≤ Gen.blksizeMax)
+    (hw : 1 ≤ c.windowsize ∧ c.windowsize ≤ 65535) (ht : 1 ≤ c.timeoutS ∧ c.timeoutS ≤ Gen.timeoutMax) :
+    ∃ wo acks, parseWorkerOptions (clientOptions c ts) rt = some (wo, acks) ∧
+      wo.blockSize = c.blocksize ∧ wo.windowSize = c.windowsize ∧ wo.timeoutS = c.timeoutS ∧
+      (verifyOack c acks).blocksize = c.blocksize ∧ (verifyOack c acks).windowsize = c.windowsize := by
+  have h1 : ¬ (c.blocksize < Gen.blksizeMin) := by omega
+  have h2 : ¬ (c.blocksize > Gen.blksizeMax) := by omega
+  have h3 : ¬ (c.windowsize = 0) := by omega
+  have h4 : ¬ (c.windowsize > 65535) := by omega
+  have h5 : ¬ (c.timeoutS = 0) := by omega
+  have h6 : ¬ (c.timeoutS > Gen.timeoutMax) := by omega
+  have hmod : c.windowsize % 65536 = c.windowsize := Nat.mod_eq_of_lt (by omega)
+  cases rt with
+  | read size =>
+    refine ⟨{ blockSize := c.blocksize, transferSize := size, timeoutS := c.timeoutS, windowSize := c.windowsize },
+      [{ option := .blksize, value := c.blocksize }, { option := .windowsize, value := c.windowsize },
+       { option := .timeout, value := c.timeoutS }, { option := .tsize, value := size }], ?_, rfl, rfl, rfl, ?_⟩
+    · simp only [parseWorkerOptions, clientOptions, parseOptionsLoop, h1, h2, h3, h4, h5, h6, decide_false, Bool.or_self,
+        Bool.and_false, Bool.false_eq_true, ↓reduceIte]
+      rfl
+    · simp [verifyOack, hmod]
+  | write =>
+    refine ⟨{ blockSize := c.blocksize, transferSize := ts, timeoutS := c.timeoutS, windowSize := c.windowsize },
+      [{ option := .blksize, value := c.blocksize }, { option := .windowsize, value := c.windowsize },
+       { option := .timeout, value := c.timeoutS }, { option := .tsize, value := ts }], ?_, rfl, rfl, rfl, ?_⟩
+    · simp only [parseWorkerOptions, clientOptions, parseOptionsLoop, h1, h2, h3, h4, h5, h6, decide_false, Bool.or_self,
+        Bool.and_false, Bool.false_eq_true, ↓reduceIte]
+      rfl
+    · simp [verifyOack, hmod]
+
+/-- **client and server, end to end** (download): for every option choice of the client inside the documented
+ranges, every file and every schedule of lost and duplicated datagrams, the parameters the server's worker gets
+from `parse_options` on the client's request and the parameters the client keeps after `verify_oack` on the
+server's OACK drive a data phase (the closed loop of the two worker models) that runs to an end, and that end is
+success with a byte-identical file on the receiving side, or both-sided / sender-sided give-up after
+`MAX_RETRIES` consecutive failed attempts; with fewer than `MAX_RETRIES` losses it is success -/
+theorem c14_end_to_end (c : ClientCfg) (f : Bytes) (clean : Bool)
+    (hb : Gen.blksizeMin ≤ c.blocksize ∧ c.blocksize ≤ Gen.blksizeMax)
+    (hw : 1 ≤ c.windowsize ∧ c.windowsize ≤ 65535) (ht : 1 ≤ c.timeoutS ∧ c.timeoutS ≤ Gen.timeoutMax) :
+    ∃ wo acks, parseWorkerOptions (clientOptions c 0) (.read f.length) = some (wo, acks) ∧
+      ∀ fl : Faults,
+        (∃ fuel, TotalDone f
+          (netRun { b := wo.blockSize, w := wo.windowSize, timeout := wo.timeoutS * 1000, rep := 1 }
+            { b := (verifyOack c acks).blocksize, w := (verifyOack c acks).windowsize, rep := 1, cleanOnError := clean }
+            fl fuel
+            (netInit { b := wo.blockSize, w := wo.windowSize, timeout := wo.timeoutS * 1000, rep := 1 }
+              { b := (verifyOack c acks).blocksize, w := (verifyOack c acks).windowsize, rep := 1, cleanOnError := clean }
+              fl f))) ∧
+        (fl.dropData.length + fl.dropAck.length < Gen.maxRetries →
+          ∃ fuel,
+            (netRun { b := wo.blockSize, w := wo.windowSize, timeout := wo.timeoutS * 1000, rep := 1 }
+              { b := (verifyOack c acks).blocksize, w := (verifyOack c acks).windowsize, rep := 1, cleanOnError := clean }
+              fl fuel
+              (netInit { b := wo.blockSize, w := wo.windowSize, timeout := wo.timeoutS * 1000, rep := 1 }
+                { b := (verifyOack c acks).blocksize, w := (verifyOack c acks).windowsize, rep := 1, cleanOnError := clean }
+                fl f)).r.win.file.content = f) := by
+  obtain ⟨wo, acks, hp, h1, h2, h3, h4, h5⟩ := c14_negotiation c (.read f.length) 0 hb hw ht
+  refine ⟨wo, acks, hp, ?_⟩
+  intro fl
+  have hbmin : 0 < Gen.blksizeMin := by decide
+  have lc : LoopCfgT { b := wo.blockSize, w := wo.windowSize, timeout := wo.timeoutS * 1000, rep := 1 }
+      { b := (verifyOack c acks).blocksize, w := (verifyOack c acks).windowsize, rep := 1, cleanOnError := clean } :=
+    ⟨⟨by show 0 < wo.blockSize; omega, by show 1 ≤ wo.windowSize; omega, by show wo.windowSize < 65536; omega, rfl,
+      by show (verifyOack c acks).blocksize = wo.blockSize; omega,
+      by show (verifyOack c acks).windowsize = wo.windowSize; omega, rfl⟩,
+      by show 0 < wo.timeoutS * 1000; omega⟩
+  refine ⟨closed_loop_total _ _ lc fl f, ?_⟩
+  intro hbud
+  obtain ⟨fuel, _, hfile, _⟩ := loss_tolerance _ _ lc fl hbud f
+  exact ⟨fuel, hfile⟩
 
 end Tftp
